@@ -65,9 +65,10 @@ func runInstCase(t *Traffic, op spectypes.OperatorID, r *hx.Rng) caseOut {
 	var tags []string
 	ops := mutateScript(t, t.scripts[int(op)-1], r, &tags)
 	policy := []string{"none", "none", "none", "after-rc", "after-every", "random"}[r.Intn(6)]
-	c := newCase(env, op, t.h, [][]byte{badValue}, false, policy == "none", false)
+	prod := r.Chance(25)
+	c := newCaseCfg(env, op, t.h, [][]byte{badValue}, false, policy == "none", false, prod)
 	c.emit(c.resetLine(), "ok")
-	tags = append(tags, "case/inst", "scenario/"+t.scenario, "compaction/"+policy, fmt.Sprintf("n/%d", env.n))
+	tags = append(tags, fmt.Sprintf("config/production-%v", prod), "case/inst", "scenario/"+t.scenario, "compaction/"+policy, fmt.Sprintf("n/%d", env.n))
 	pFault := []int{0, 0, 3, 8}[r.Intn(4)]
 	for _, o := range ops {
 		if r.Chance(pFault) {
@@ -102,9 +103,10 @@ func runCtrlCase(t *Traffic, op spectypes.OperatorID, r *hx.Rng) caseOut {
 		ops = multiHeight(t, ops, r, &tags)
 	}
 	policy := []string{"none", "runner", "runner", "runner", "arbitrary"}[r.Intn(5)]
-	c := newCase(env, op, t.h, [][]byte{badValue}, true, false, policy == "runner")
+	prod := r.Chance(25)
+	c := newCaseCfg(env, op, t.h, [][]byte{badValue}, true, false, policy == "runner", prod)
 	c.emit(c.resetLine(), "ok")
-	tags = append(tags, "case/ctrl", "scenario/"+t.scenario, "compaction/"+policy, fmt.Sprintf("n/%d", env.n))
+	tags = append(tags, fmt.Sprintf("config/production-%v", prod), "case/ctrl", "scenario/"+t.scenario, "compaction/"+policy, fmt.Sprintf("n/%d", env.n))
 	pFault := []int{0, 0, 3, 8}[r.Intn(4)]
 	for _, o := range ops {
 		if r.Chance(pFault) {
@@ -353,7 +355,9 @@ func main() {
 			run.Tag("traffic/" + t.scenario)
 		}
 		for _, o := range []caseOut{scenarioRepeatedJustifications(4, 0, false), scenarioRepeatedJustifications(4, 0, true),
-			scenarioRepeatedJustifications(7, 2, false), scenarioRepeatedJustifications(7, 2, true)} {
+			scenarioRepeatedJustifications(7, 2, false), scenarioRepeatedJustifications(7, 2, true),
+			scenarioProdLeaderOfAskedRound(4, 0, 1, false), scenarioProdLeaderOfAskedRound(4, 2, 2, false), scenarioProdLeaderOfAskedRound(7, 1, 1, false),
+			scenarioProdLeaderOfAskedRound(4, 0, 1, true), scenarioProdLeaderOfAskedRound(7, 3, 2, true)} {
 			absorb(run, o)
 		}
 		parallelCases(run, run.N, one(func(idx int, r *hx.Rng) caseOut {
@@ -380,7 +384,9 @@ func main() {
 		for _, o := range []caseOut{scenarioReusedSignature(0), scenarioReusedSignature(5),
 			runC02History(dr, "wrong-leader", 4, 0, 3, 1, 2, 0), runC02History(dr, "wrong-leader", 4, 2, 1, 2, 3, 0),
 			runC02History(dr, "wrong-leader", 7, 1, 5, 1, 2, 1), runC02History(dr, "bad-value", 4, 0, 3, 1, 2, 0),
-			runC02History(dr, "bad-value", 4, 3, 2, 2, 3, 0), runC02History(dr, "bad-value", 7, 1, 6, 2, 2, 0)} {
+			runC02History(dr, "bad-value", 4, 3, 2, 2, 3, 0), runC02History(dr, "bad-value", 7, 1, 6, 2, 2, 0),
+			scenarioProdOneSignatureCertificate(4, 0), scenarioProdOneSignatureCertificate(7, 2),
+			scenarioProdLeaderOfAskedRound(4, 0, 1, true), scenarioProdLeaderOfAskedRound(7, 3, 2, true)} {
 			absorb(run, o)
 		}
 		parallelCases(run, run.N, one(func(idx int, r *hx.Rng) caseOut {
